@@ -93,6 +93,37 @@ fn term(args: &[&str]) -> String {
     }
 }
 
+// compile <mode file|dir> <source path> <dest path or -> <format 0|1> <prefix hex> <derives or ->
+fn compile(args: &[&str]) -> String {
+    use peginator_codegen::Compile;
+    let mode = args[0].to_string();
+    let src = args[1].to_string();
+    let dest = args[2].to_string();
+    let format = args[3] == "1";
+    let prefix = String::from_utf8(unhex(args[4])).unwrap();
+    let r = panic::catch_unwind(move || {
+        let mut c = if mode == "dir" { Compile::directory(&src) } else { Compile::file(&src) };
+        if dest != "-" {
+            c = c.destination(&dest);
+        }
+        if format {
+            c = c.format();
+        }
+        c = c.prefix(prefix);
+        c.run()
+    });
+    match r {
+        Ok(Ok(())) => "OK".to_string(),
+        Ok(Err(e)) => format!("ERR\t{}", hex(format!("{:#}", e).as_bytes())),
+        Err(_) => "PANIC".to_string(),
+    }
+}
+
+fn header(args: &[&str]) -> String {
+    let text = String::from_utf8(unhex(args[0])).unwrap();
+    hex(peginator_codegen::generate_source_header(&text).as_bytes())
+}
+
 fn main() {
     panic::set_hook(Box::new(|_| {}));
     let stdin = io::stdin();
@@ -104,6 +135,8 @@ fn main() {
         let resp = match parts[0] {
             "pretty" => pretty(&parts[1..]),
             "term" => term(&parts[1..]),
+            "compile" => compile(&parts[1..]),
+            "header" => header(&parts[1..]),
             other => format!("UNKNOWN\t{}", other),
         };
         writeln!(out, "{}", resp).unwrap();
